@@ -78,7 +78,7 @@ structure Glob where
 structure Doc where
   ty : List Str
   data : List (Str × Str)
-  deriving Repr, BEq, Inhabited
+  deriving Repr, DecidableEq, Inhabited
 
 structure Ev where
   stored : Str := []
@@ -132,7 +132,7 @@ inductive Res where
   | wrote (n : Nat)     -- return value of `write`
   | unit
   | closedErr           -- `ValueError: I/O operation on closed file`
-  deriving Repr, BEq, Inhabited
+  deriving Repr, DecidableEq, Inhabited
 
 /-- `EventIO.write(s)` -/
 def write (g : Glob) (s : Str) (ev : Ev) : Res × Ev × Str :=
@@ -188,7 +188,7 @@ inductive Op where
   | writeln (s : Str)
   | setData (k : Str)
   | close
-  deriving Repr, BEq, Inhabited
+  deriving Repr, DecidableEq, Inhabited
 
 /-- one call: result, new state, stdout text, documents appended to the log file -/
 def step (g : Glob) (ev : Ev) : Op → Res × Ev × Str × List Doc
@@ -246,7 +246,14 @@ inductive PStep where
   | fail (buflen : Nat)         -- `raw_decode(buf)` raised `JSONDecodeError`
   | ok (buflen idx : Nat)       -- `raw_decode(buf)` returned a document ending at `idx`
   | fuel                        -- the model ran out of fuel (never, see `Props/LogParse`)
-  deriving Repr, BEq, Inhabited
+  deriving Repr, DecidableEq, Inhabited
+
+/-- the characters `str.lstrip()` / `str.isspace()` treat as white space -/
+def pySpace (c : Char) : Bool :=
+  let n := c.toNat
+  (9 ≤ n && n ≤ 13) || (28 ≤ n && n ≤ 32) || n == 0x85 || n == 0xA0 || n == 0x1680
+    || (0x2000 ≤ n && n ≤ 0x200A) || n == 0x2028 || n == 0x2029 || n == 0x202F || n == 0x205F
+    || n == 0x3000
 
 /-- `str.lstrip()` -/
 def lstrip {χ : Type} (isSpace : χ → Bool) (s : List χ) : List χ := s.dropWhile isSpace
@@ -288,7 +295,7 @@ document's length. -/
 inductive FTok where
   | doc (id pos last : Nat)    -- character `pos` of document `id` whose last offset is `last`
   | sp                         -- a whitespace character between documents
-  deriving Repr, BEq, Inhabited
+  deriving Repr, DecidableEq, Inhabited
 
 /-- a document: identifier and length − 1 -/
 abbrev FDoc := Nat × Nat
